@@ -5,6 +5,8 @@ package main
 // compared with the committed baseline and the known-findings file.
 
 import (
+	"bytes"
+	"os/exec"
 	"encoding/json"
 	"fmt"
 	"os"
@@ -215,11 +217,139 @@ func cmdCheck(args []string) {
 		os.Exit(2)
 	}
 	code := w.checkProperty(id, tier, seed, t0, true)
+	if tier == "thorough" && code == 0 {
+		runCanaries(id, seed)
+		// engine self-test (must-fail / must-pass corpus), once per build of govc
+		exe, _ := os.Executable()
+		stamp := filepath.Join(verifDir, "work", "selftest.stamp")
+		want := ""
+		if st, err := os.Stat(exe); err == nil {
+			want = st.ModTime().String()
+		}
+		if data, err := os.ReadFile(stamp); err != nil || string(data) != want {
+			if rc := cmdSelftest(); rc == 0 {
+				os.WriteFile(stamp, []byte(want), 0644)
+				fmt.Println("ENGINE-SELFTEST ok")
+			} else {
+				fmt.Println("ENGINE-SELFTEST BROKEN (see lines above): proofs of this engine build are not to be trusted")
+				code = 2
+			}
+		}
+	}
 	os.Exit(code)
 }
 
+// runCanaries (thorough tier): every seeded change recorded for the property
+// under /verif/seeded is applied to an in-memory copy of the affected files
+// (the tree in /repo is not touched), the property's quick check is run on
+// that view and must report at least one violation. The outcome is printed
+// as CANARY lines and added to the evidence file; it does not change the
+// verdict on the real tree.
+func runCanaries(id string, seed int) {
+	dirs, _ := filepath.Glob(filepath.Join(verifDir, "seeded", "*"))
+	sort.Strings(dirs)
+	var report []map[string]interface{}
+	for _, d := range dirs {
+		var meta struct {
+			Property string `json:"property"`
+		}
+		data, err := os.ReadFile(filepath.Join(d, "meta.json"))
+		if err != nil || json.Unmarshal(data, &meta) != nil || meta.Property != id {
+			continue
+		}
+		overlay, err := patchedOverlay(filepath.Join(d, "patch.diff"))
+		name := filepath.Base(d)
+		if err != nil {
+			fmt.Printf("CANARY %s not-applicable (%v)\n", name, err)
+			report = append(report, map[string]interface{}{"seeded": name, "status": "patch does not apply to the current tree: " + err.Error()})
+			continue
+		}
+		w2, err := LoadWorld(repoRoot, specDir(), overlay)
+		if err != nil {
+			fmt.Printf("CANARY %s not-applicable (does not load: %v)\n", name, err)
+			report = append(report, map[string]interface{}{"seeded": name, "status": "mutated tree does not load"})
+			continue
+		}
+		var buf bytes.Buffer
+		w2.out = &buf
+		w2.replayRoot = filepath.Join(verifDir, "work", "canary", name)
+		code := w2.checkProperty(id, "quick", seed, time.Now(), false)
+		n := strings.Count(buf.String(), "VIOLATION ")
+		status := "caught"
+		if code != 1 || n == 0 {
+			status = "MISSED"
+		}
+		fmt.Printf("CANARY %s %s (%d violation line(s) on the mutated view)\n", name, status, n)
+		report = append(report, map[string]interface{}{"seeded": name, "status": status, "violation_lines": n})
+	}
+	if len(report) == 0 {
+		return
+	}
+	path := filepath.Join(verifDir, "evidence", id+".json")
+	var ev map[string]interface{}
+	if data, err := os.ReadFile(path); err == nil && json.Unmarshal(data, &ev) == nil {
+		if cov, ok := ev["coverage"].(map[string]interface{}); ok {
+			cov["canaries"] = report
+			data, _ := json.MarshalIndent(ev, "", " ")
+			os.WriteFile(path, data, 0644)
+		}
+	}
+}
+
+// patchedOverlay applies a unified diff to copies of the files it names and
+// returns their new contents keyed by their path under /repo.
+func patchedOverlay(patchFile string) (map[string][]byte, error) {
+	data, err := os.ReadFile(patchFile)
+	if err != nil {
+		return nil, err
+	}
+	tmp, err := os.MkdirTemp("", "govc-canary-")
+	if err != nil {
+		return nil, err
+	}
+	defer os.RemoveAll(tmp)
+	var files []string
+	for _, l := range strings.Split(string(data), "\n") {
+		if strings.HasPrefix(l, "+++ b/") {
+			files = append(files, strings.TrimSpace(strings.TrimPrefix(l, "+++ b/")))
+		}
+	}
+	if len(files) == 0 {
+		return nil, fmt.Errorf("no files in patch")
+	}
+	for _, f := range files {
+		src, err := os.ReadFile(filepath.Join(repoRoot, f))
+		if err != nil {
+			return nil, err
+		}
+		os.MkdirAll(filepath.Dir(filepath.Join(tmp, f)), 0755)
+		os.WriteFile(filepath.Join(tmp, f), src, 0644)
+	}
+	cmd := exec.Command("patch", "-p1", "-s", "-f", "-d", tmp, "-i", patchFile)
+	if out, err := cmd.CombinedOutput(); err != nil {
+		return nil, fmt.Errorf("patch: %v: %s", err, firstLines(string(out), 2))
+	}
+	ov := map[string][]byte{}
+	for _, f := range files {
+		b, err := os.ReadFile(filepath.Join(tmp, f))
+		if err != nil {
+			return nil, err
+		}
+		ov[filepath.Join(repoRoot, f)] = b
+	}
+	return ov, nil
+}
+
+func (w *World) printf(f string, a ...interface{}) {
+	if w.out != nil {
+		fmt.Fprintf(w.out, f, a...)
+		return
+	}
+	fmt.Printf(f, a...)
+}
+
 func (w *World) checkProperty(id, tier string, seed int, t0 time.Time, writeEvidence bool) int {
-	timeout := 10
+	timeout := quickTimeout
 	if tier == "thorough" {
 		timeout = 60
 	}
@@ -268,6 +398,9 @@ func (w *World) checkProperty(id, tier string, seed int, t0 time.Time, writeEvid
 	var notClaimed []string
 	var knownLines []string
 	replayDir := filepath.Join(verifDir, "replay", id)
+	if w.replayRoot != "" {
+		replayDir = filepath.Join(w.replayRoot, id)
+	}
 	report := func(r *Result, why string) {
 		violations++
 		os.MkdirAll(replayDir, 0755)
@@ -276,7 +409,7 @@ func (w *World) checkProperty(id, tier string, seed int, t0 time.Time, writeEvid
 		if !reproduced {
 			suffix = " no-failing-input-found"
 		}
-		fmt.Printf("VIOLATION property=%s replay=%s obligation=%q reason=%q%s\n", id, path, r.Obl.Name, why, suffix)
+		w.printf("VIOLATION property=%s replay=%s obligation=%q reason=%q%s\n", id, path, r.Obl.Name, why, suffix)
 	}
 	for _, r := range results {
 		if r.SumS > 0 {
@@ -289,7 +422,7 @@ func (w *World) checkProperty(id, tier string, seed int, t0 time.Time, writeEvid
 		if o.Kind == "cover" {
 			if r.Status != "cover-ok" {
 				if inBase {
-					fmt.Printf("BROKEN vacuity: %s: %s (%s)\n", o.Name, r.Status, r.Reason)
+					w.printf("BROKEN vacuity: %s: %s (%s)\n", o.Name, r.Status, r.Reason)
 					broken++
 				}
 			}
@@ -320,7 +453,7 @@ func (w *World) checkProperty(id, tier string, seed int, t0 time.Time, writeEvid
 			case "confined":
 				line := fmt.Sprintf("KNOWN-FINDING: property=%s %s [obligation %s fails only where %s]", id, kf.What, o.Name, kf.Except)
 				knownLines = append(knownLines, line)
-				fmt.Println(line)
+				w.printf("%s\n", line)
 				if inBase {
 					discharged++ // discharged outside the recorded region
 				}
@@ -365,7 +498,7 @@ func (w *World) checkProperty(id, tier string, seed int, t0 time.Time, writeEvid
 		undecidedNew++
 		notClaimed = append(notClaimed, o.Name+" ("+r.Status+")")
 		if base != nil {
-			fmt.Printf("UNDECIDED obligation=%q status=%s reason=%q\n", o.Name, r.Status, r.Reason)
+			w.printf("UNDECIDED obligation=%q status=%s reason=%q\n", o.Name, r.Status, r.Reason)
 		}
 	}
 	// baseline obligations that were not generated at all
@@ -391,10 +524,10 @@ func (w *World) checkProperty(id, tier string, seed int, t0 time.Time, writeEvid
 		path := filepath.Join(replayDir, safeName(m)+".json")
 		data, _ := json.MarshalIndent(map[string]interface{}{"property": id, "obligation": m, "reason": "contract-level obligation of the baseline was not generated: the function under contract is gone, renamed, or its contract no longer resolves", "unsupported": pr.unsup}, "", " ")
 		os.WriteFile(path, data, 0644)
-		fmt.Printf("VIOLATION property=%s replay=%s obligation=%q reason=%q no-failing-input-found\n", id, path, m, "obligation no longer generated")
+		w.printf("VIOLATION property=%s replay=%s obligation=%q reason=%q no-failing-input-found\n", id, path, m, "obligation no longer generated")
 	}
 	if len(base) == 0 {
-		fmt.Printf("BROKEN: no baseline obligations for %s\n", id)
+		w.printf("BROKEN: no baseline obligations for %s\n", id)
 		broken++
 	}
 	if writeEvidence {
@@ -438,7 +571,7 @@ func (w *World) checkProperty(id, tier string, seed int, t0 time.Time, writeEvid
 		data, _ := json.MarshalIndent(ev, "", " ")
 		os.WriteFile(filepath.Join(verifDir, "evidence", id+".json"), data, 0644)
 	}
-	fmt.Printf("property %s: %d obligations claimed, %d discharged, %d generated, %d violations, %d undecided-new, %.1fs\n", id, claimed, discharged, len(results), violations, undecidedNew, time.Since(t0).Seconds())
+	w.printf("property %s: %d obligations claimed, %d discharged, %d generated, %d violations, %d undecided-new, %.1fs\n", id, claimed, discharged, len(results), violations, undecidedNew, time.Since(t0).Seconds())
 	if violations > 0 {
 		return 1
 	}
@@ -512,6 +645,11 @@ func (w *World) checkKnown(kf *KnownFinding, r *Result, dir string, timeout int)
 }
 
 // cmdBaseline records the obligations proved on the current tree.
+// quick tier: per-query time-out, and the margin under which a proved
+// obligation is claimed for the quick tier (slower ones are thorough-only)
+const quickTimeout = 20
+const quickMargin = 8.0
+
 func cmdBaseline(args []string) {
 	w, err := LoadWorld(repoRoot, specDir(), nil)
 	if err != nil {
@@ -527,7 +665,7 @@ func cmdBaseline(args []string) {
 			pr := w.runProperty(id)
 			workDir := filepath.Join(verifDir, "work", id)
 			os.RemoveAll(workDir)
-			results := dischargeAll(pr.obls, workDir, 10, 16)
+			results := dischargeAll(pr.obls, workDir, quickTimeout, 16)
 			set := map[string]string{}
 			unverifiable := map[string]bool{}
 			for _, c := range pr.ctxs {
@@ -536,28 +674,31 @@ func cmdBaseline(args []string) {
 					fmt.Printf("unverifiable %s: %v\n", shortFuncKey(c.Fn), c.Unsupported)
 				}
 			}
+			var second []*Obligation
 			for _, r := range results {
 				if unverifiable[r.Obl.Func] {
 					continue
 				}
 				// quick-tier margin: only obligations decided in well under the time-out
-				if (r.Status == "proved" && r.TimeS < 4) || r.Status == "cover-ok" {
+				if (r.Status == "proved" && r.TimeS < quickMargin) || r.Status == "cover-ok" {
 					set[r.Obl.Name] = r.Obl.Kind
-				} else if kf := known.match(id, r.Obl.Name); kf != nil && w.checkKnown(kf, r, workDir, 10) == "confined" {
+				} else if kf := known.match(id, r.Obl.Name); kf != nil && w.checkKnown(kf, r, workDir, quickTimeout) == "confined" {
 					set[r.Obl.Name] = r.Obl.Kind
 				} else if r.Status == "proved" || r.Status == "undecided" || r.Status == "refuted-candidate" {
 					// second chance with the thorough-tier time-out: claimed for the thorough tier only
-					r2 := discharge(r.Obl, workDir, 90, false)
-					if r2.Status == "proved" {
-						set[r.Obl.Name] = r.Obl.Kind + ":slow"
-						if i == 0 {
-							fmt.Printf("slow (thorough only): %s %.1fs\n", r.Obl.Name, r2.TimeS)
-						}
-					} else if i == 0 {
-						fmt.Printf("not claimed: %s %s %.1fs %s\n", r2.Status, r.Obl.Name, r2.TimeS, trunc(r2.Reason, 200))
-					}
+					second = append(second, r.Obl)
 				} else if i == 0 {
 					fmt.Printf("not claimed: %s %s %.1fs %s\n", r.Status, r.Obl.Name, r.TimeS, trunc(r.Reason, 200))
+				}
+			}
+			for _, r2 := range dischargeAll(second, workDir, 90, 4) {
+				if r2.Status == "proved" {
+					set[r2.Obl.Name] = r2.Obl.Kind + ":slow"
+					if i == 0 {
+						fmt.Printf("slow (thorough only): %s %.1fs\n", r2.Obl.Name, r2.TimeS)
+					}
+				} else if i == 0 {
+					fmt.Printf("not claimed: %s %s %.1fs %s\n", r2.Status, r2.Obl.Name, r2.TimeS, trunc(r2.Reason, 200))
 				}
 			}
 			sets = append(sets, set)
